@@ -2,7 +2,9 @@
 (***************************************************************************)
 (* The analysis pipeline of `osaca.osaca.inspect` as ONE state machine:    *)
 (*                                                                         *)
-(*   parse -> [lines] -> select -> semantics -> (balance, balance | fixed) *)
+(*   [detect] -> parser -> parse [-> parsefail -> detect -> parser ->      *)
+(*         parse] -> [lines] -> select -> semantics                        *)
+(*         -> (balance, balance | fixed)                                   *)
 (*         -> graph (one iteration) -> graph (two iterations) -> lcd       *)
 (*         -> cp* -> dict                                                  *)
 (*                                                                         *)
@@ -25,11 +27,25 @@ EXTENDS Deps
 Fail(why) == [stage |-> "FAILED", why |-> why]
 IsFailed(s) == s.stage = "FAILED"
 
-Init0(fixed, flagDeps) ==
-  [stage |-> "init", why |-> "", fixed |-> fixed, flagDeps |-> flagDeps,
+(* The front door (`inspect` before the first stage): which micro-         *)
+(* architecture and which parser an input is analysed with.  fd is the     *)
+(* recorded configuration of the run:                                      *)
+(*   fd.on        FALSE: the run carries no front-door events (traces of   *)
+(*                the library API), the front-door clauses are skipped     *)
+(*   fd.given     the architecture named with --arch ("" if none)          *)
+(*   fd.defaults  [x86 |-> .., aarch64 |-> ..] the documented defaults     *)
+(*   fd.isaOf     architecture -> ISA, READ FROM THE MODEL FILES' `isa:`   *)
+(*   fd.timeout   the LCD time limit of the command line                   *)
+NoFD == [on |-> FALSE]
+OtherIsa(i) == IF i = "x86" THEN "aarch64" ELSE "x86"
+
+Init1(fixed, flagDeps, fd) ==
+  [stage |-> "init", why |-> "", fixed |-> fixed, flagDeps |-> flagDeps, fd |-> fd,
+   detected |-> "", arch |-> "", isa |-> "", retried |-> FALSE, timedOut |-> FALSE, allLines |-> FALSE,
    parsed |-> {}, wanted |-> {}, haveWanted |-> FALSE, kernel |-> <<>>,
    rows |-> <<>>, tp |-> <<>>, lat |-> <<>>, latwo |-> <<>>, lds |-> <<>>, nports |-> 0,
    nbal |-> 0, g1 |-> [n |-> 0], g2 |-> [n |-> 0], cyc |-> {}, lcdMax |-> 0, cp |-> -1, cpMarked |-> {}]
+Init0(fixed, flagDeps) == Init1(fixed, flagDeps, NoFD)
 
 Sum(seq) == LET RECURSIVE S(_)
                 S(i) == IF i > Len(seq) THEN 0 ELSE seq[i] + S(i + 1)
@@ -59,8 +75,35 @@ GraphFromEvent(s, e, n, off) ==
 
 Step(s, e) ==
   IF IsFailed(s) THEN s
-  ELSE CASE e.ev = "parse" ->
+  ELSE CASE e.ev = "detect" ->     \* ISA heuristics: only consulted when no architecture was named
+         IF ~s.fd.on THEN s
+         ELSE IF s.stage \notin {"init", "parsefail"} THEN Fail("order:detect-out-of-order")
+         ELSE IF e.isa \notin {"x86", "aarch64"} THEN Fail("frontdoor-detected-unknown-isa")
+         ELSE IF s.detected # "" /\ e.isa # s.detected THEN Fail("frontdoor-detection-not-a-function-of-the-file")
+         ELSE [s EXCEPT !.detected = e.isa]
+    [] e.ev = "parser" ->     \* the parser is chosen for an architecture
+         IF ~s.fd.on THEN s
+         \* one choice per attempt: before the first parse, and once more after a failed parse
+         ELSE IF ~((s.stage = "init" /\ s.arch = "") \/ s.stage = "parsefail") THEN Fail("order:parser-out-of-order")
+         ELSE IF e.arch \notin DOMAIN s.fd.isaOf THEN Fail("frontdoor-parser-for-unknown-arch")
+         ELSE IF s.fd.given # "" /\ e.arch # s.fd.given THEN Fail("frontdoor-parser-not-for-named-arch")
+         ELSE IF s.fd.given = "" /\ s.detected = "" THEN Fail("frontdoor-default-arch-without-detection")
+         ELSE IF s.fd.given = "" /\ s.stage = "init" /\ e.arch # s.fd.defaults[s.detected]
+              THEN Fail("frontdoor-default-arch-not-for-detected-isa")
+         ELSE IF s.fd.given = "" /\ s.stage = "parsefail" /\ e.arch # s.fd.defaults[OtherIsa(s.detected)]
+              THEN Fail("frontdoor-retry-not-with-other-isa")
+         ELSE IF e.isa # s.fd.isaOf[e.arch] THEN Fail("frontdoor-parser-isa-differs-from-model-isa")
+         ELSE [s EXCEPT !.arch = e.arch, !.isa = e.isa, !.stage = "init"]
+    [] e.ev = "parsefail" ->  \* the parser raised: one retry with the other ISA, only for a guessed architecture
+         IF ~s.fd.on THEN s
+         ELSE IF s.stage # "init" \/ s.arch = "" THEN Fail("order:parsefail-out-of-order")
+         ELSE IF s.fd.given # "" THEN Fail("frontdoor-retry-although-arch-named")
+         ELSE IF s.retried THEN Fail("frontdoor-second-retry")
+         ELSE [s EXCEPT !.stage = "parsefail", !.retried = TRUE]
+    [] e.ev = "parse" ->
          IF s.stage # "init" THEN Fail("order:parse-out-of-order")
+         ELSE IF s.fd.on /\ s.arch = "" THEN Fail("order:parse-before-parser-chosen")
+         ELSE IF s.fd.on /\ e.isa # s.isa THEN Fail("frontdoor-parsed-with-other-parser")
          ELSE IF ~StrictlyIncreasing(e.lines) THEN Fail("parsed-lines-not-increasing")
          ELSE [s EXCEPT !.stage = "parsed", !.parsed = ToSet(e.lines)]
     [] e.ev = "lines" ->
@@ -70,12 +113,15 @@ Step(s, e) ==
          IF s.stage # "parsed" \/ s.haveWanted THEN Fail("order:select-out-of-order")
          ELSE IF ~(ToSet(e.kernel) \subseteq s.parsed) THEN Fail("kernel-not-from-parsed-file")
          ELSE IF ~StrictlyIncreasing(e.kernel) THEN Fail("kernel-order")
-         ELSE [s EXCEPT !.stage = "selected", !.kernel = e.kernel]
+         ELSE IF s.fd.on /\ e.isa # s.isa THEN Fail("frontdoor-markers-of-other-isa")
+         ELSE [s EXCEPT !.stage = "selected", !.kernel = e.kernel, !.allLines = (ToSet(e.kernel) = s.parsed)]
     [] e.ev = "semantics" ->
          IF ~(s.stage = "selected" \/ (s.stage = "parsed" /\ s.haveWanted)) THEN Fail("order:semantics-out-of-order")
          ELSE IF s.stage = "selected" /\ e.kernel # s.kernel THEN Fail("semantics-on-different-kernel")
          ELSE IF s.haveWanted /\ ToSet(e.kernel) # (s.wanted \cap s.parsed) THEN Fail("lines-selection-not-exact")
          ELSE IF \E i \in DOMAIN e.rows : Len(e.rows[i]) # e.ports THEN Fail("row-width")
+         ELSE IF s.fd.on /\ e.arch # s.arch THEN Fail("frontdoor-model-differs-from-parser-arch")
+         ELSE IF s.fd.on /\ e.isa # s.isa THEN Fail("frontdoor-model-isa-differs-from-parser-isa")
          ELSE [s EXCEPT !.stage = "semantics", !.kernel = e.kernel, !.rows = e.rows, !.tp = e.tp,
                         !.lat = e.lat, !.latwo = e.latwo, !.lds = e.lds, !.nports = e.ports]
     [] e.ev = "balance" ->
@@ -121,7 +167,9 @@ Step(s, e) ==
               ELSE IF \E i \in DOMAIN e.lcd :
                         e.lcd[i][1] # CycleLat(s.g2, n, { Idx(s.kernel, e.lcd[i][2][j]) : j \in DOMAIN e.lcd[i][2] })
                    THEN Fail("lcd-latency")
-              ELSE [s EXCEPT !.stage = "lcd", !.cyc = obs, !.lcdMax = IF lats = {} THEN 0 ELSE Max(lats)]
+              ELSE IF s.fd.on /\ e.timeout # s.fd.timeout THEN Fail("frontdoor-lcd-timeout-option-not-honoured")
+              ELSE [s EXCEPT !.stage = "lcd", !.cyc = obs, !.lcdMax = IF lats = {} THEN 0 ELSE Max(lats),
+                             !.timedOut = e.timedOut]
     [] e.ev = "cp" ->
          IF ~(s.stage \in {"lcd", "cp"}) THEN Fail("order:cp-out-of-order")
          ELSE LET total == Sum([i \in DOMAIN e.cells |-> e.cells[i][2]])
@@ -141,6 +189,15 @@ Step(s, e) ==
                    LET col == Sum([i \in DOMAIN s.rows |-> IF s.tp[i] # 0 THEN s.rows[i][p] ELSE 0]) IN
                    (\E i \in DOMAIN s.rows : s.tp[i] # 0) /\ e.totals[p] \notin Round2Set(col)
               THEN Fail("summary-total-not-column-sum")
+         \* the user warnings state how the run came about
+         ELSE IF s.fd.on /\ (("ArchWarning" \in ToSet(e.warnings)) # (s.fd.given = ""))
+              THEN Fail("frontdoor-warning-arch")
+         ELSE IF s.fd.on /\ (("LengthWarning" \in ToSet(e.warnings))
+                              # (~s.haveWanted /\ s.allLines /\ Len(s.kernel) > 100))
+              THEN Fail("frontdoor-warning-length")
+         ELSE IF s.fd.on /\ (("LCDWarning" \in ToSet(e.warnings)) # s.timedOut)
+              THEN Fail("frontdoor-warning-lcd")
+         ELSE IF s.fd.on /\ e.target # s.arch THEN Fail("frontdoor-report-names-other-arch")
          ELSE [s EXCEPT !.stage = "reported"]
     [] e.ev = "report" ->      \* the text report, parsed back: CP and LCD columns
          IF s.stage # "reported" THEN Fail("order:report-out-of-order")
@@ -158,8 +215,8 @@ RECURSIVE Fold(_, _, _)
 Fold(s, evs, i) == IF i > Len(evs) \/ IsFailed(s) THEN s
                    ELSE LET t == Step(s, evs[i]) IN
                         IF t.stage = "FAILED" THEN t ELSE Fold(t, evs, i + 1)   \* forces t before recursing
-RunTrace(fixed, flagDeps, evs) ==
-  LET s == Fold(Init0(fixed, flagDeps), evs, 1) IN
+RunTraceFD(fixed, flagDeps, fd, evs) ==
+  LET s == Fold(Init1(fixed, flagDeps, fd), evs, 1) IN
   IF IsFailed(s) THEN s.why
   ELSE IF s.stage # "reported" THEN "order:pipeline-incomplete"
   \* how often the balancer is invoked is the algorithm's business (Level B): reported as a
@@ -167,4 +224,5 @@ RunTrace(fixed, flagDeps, evs) ==
   ELSE IF ~s.fixed /\ s.nbal # 2 THEN "order:balancer-not-run-twice"
   ELSE IF s.fixed /\ s.nbal # 0 THEN "order:balanced-although-fixed"
   ELSE "ok"
+RunTrace(fixed, flagDeps, evs) == RunTraceFD(fixed, flagDeps, NoFD, evs)
 =============================================================================
